@@ -65,7 +65,9 @@ pub fn check_literal(s: &str) -> Vec<String> {
 
 /// exact (two-directional) agreement, informational
 pub fn exact_equal(s: &str) -> bool {
-    real::format_string(s) == spec::spec_format_string(s) && real::format(s) == spec::spec_format(s)
+    let o = s.to_owned();
+    std::panic::catch_unwind(move || real::format_string(&o) == spec::spec_format_string(&o) && real::format(&o) == spec::spec_format(&o))
+        .unwrap_or(false)
 }
 
 const CONTEXTS: &[(&str, &str)] = &[
